@@ -394,6 +394,7 @@ func runUcon(c *kit.Ctx) {
 		}
 		env.srv.Stop()
 		env.chain.Stop()
+		env.mux.Stop()
 		c.End("")
 	}
 }
